@@ -222,6 +222,9 @@ def run(ctx):
     rule_r1(facts, ctx, sites)
     rule_r2(facts, ctx, sites)
     rule_r3(facts, ctx, sites)
+    from . import c09
+    c09.rule_r5(facts, ctx, rule_id="C06.R4")
+    ctx.floor("C06.R4", 60, "WaitForStream verdicts with a visible amount (no demand that grows with a peer's backlog)")
     from .. import controls
     controls.expect(ctx, "C06.R1", lambda f, c: rule_r1(f, c, st_sites(f)), "BadRunner", "Again arm leaves done == true")
     ctx.floor("C06.R1", 2, "Again and Pending arms of Graph::run")
